@@ -535,15 +535,46 @@ def truthy : PyVal → Bool
   | .list xs => !xs.isEmpty
   | .dict kvs => !kvs.isEmpty
 
+/-- `pathlib.PurePosixPath(s)` as far as `==` distinguishes two paths: anchored or not, and the
+    segments without the empty and `.` ones (`a//b/./c/` is `a/b/c`; `..` is kept) -/
+def pathParts (s : Str) : Bool × List Str :=
+  (startsWith s ['/'], (splitChar '/' s).filter (fun g => !(g == [] || g == ['.'])))
+
+/-- One "is this option still at its default?" test of `normalise_paths`, on the current value
+    of the field.  `coerce = false` is `self.f == SENTINEL` (the sentinel is a `Path`, so a `str` -
+    which is what every settings file, `--config` and the command line deliver - never equals it:
+    only the untouched dataclass default does); `coerce = true` is `Path(self.f) == SENTINEL`
+    (a written string that spells the sentinel is then taken for the default; `Path(x)` of a
+    non-string is a `TypeError`: `none`).  `.path` values are `str(Path)`, i.e. already in
+    pathlib's normal form. -/
+def sentinelHit (coerce : Bool) (sentinel : Str) : PyVal → Option Bool
+  | .atom (.path p) => some (p == sentinel)
+  | .atom (.str p) => some (coerce && pathParts p == pathParts sentinel)
+  | _ => if coerce then none else some false
+
+def sentinelValue (dir pkg sentinel : Str) : SentinelRepl → PyVal
+  | .packageFile => .atom (.path (pkg ++ '/' :: sentinel))
+  | .projectDir => .atom (.path dir)
+
+/-- the sentinel tests of `normalise_paths`, in source order, over the regenerated table
+    (field, compared through `Path(...)`?, sentinel, replacement) -/
+def applySentinels (dir pkg : Str) : List (Str × Bool × Str × SentinelRepl) → Settings → Except Err Settings
+  | [], s => .ok s
+  | (f, coerce, sent, repl) :: rest, s =>
+    match sentinelHit coerce sent ((aget f s).getD .none) with
+    | none => .error .unmodelled
+    | some true => applySentinels dir pkg rest (aset f (sentinelValue dir pkg sent repl) s)
+    | some false => applySentinels dir pkg rest s
+
 /-- `ProjectSettings.normalise_paths(directory)`; `dir` is the absolute project
-    directory, `pkg` the directory of the `ford` package (default favicon). -/
-def normalisePaths (schema : List (Str × Tag × PyVal)) (favDefault : Str) (dir pkg : Str) (s : Settings) :
-    Except Err Settings :=
+    directory, `pkg` the directory of the `ford` package (default favicon), `tests` the
+    regenerated sentinel tests. -/
+def normalisePaths (schema : List (Str × Tag × PyVal)) (tests : List (Str × Bool × Str × SentinelRepl))
+    (dir pkg : Str) (s : Settings) : Except Err Settings :=
   let s := aset "directory".toList (.atom (.path dir)) s
-  let s := if getD "favicon" s == .atom (.path favDefault)
-           then aset "favicon".toList (.atom (.path (pkg ++ '/' :: favDefault))) s else s
-  let s := if getD "md_base_dir" s == .atom (.path ['.'])
-           then aset "md_base_dir".toList (.atom (.path dir)) s else s
+  match applySentinels dir pkg tests s with
+  | .error e => .error e
+  | .ok s =>
   match normAll schema dir s with
   | .error e => .error e
   | .ok s =>
@@ -596,7 +627,8 @@ structure Tables where
   seps : List (Str × Str)
   intrinsic : List (Str × Str)
   licenses : List (Str × Str)
-  favicon : Str
+  /-- the "still the default?" tests of `normalise_paths` -/
+  sentinels : List (Str × Bool × Str × SentinelRepl)
   cli : List (Str × CliKind × Option PyVal)
   /-- variant switch: the project's `extra_mods` entries win over `INTRINSIC_MODS` (repaired) -/
   modsUserWins : Bool := false
@@ -604,7 +636,7 @@ structure Tables where
 def generatedTables : Tables :=
   { schema := Generated.settingsSchema, seps := Generated.optionSeparators,
     intrinsic := Generated.intrinsicMods, licenses := Generated.licenses,
-    favicon := Generated.faviconDefault, cli := Generated.cliTable }
+    sentinels := Generated.sentinelTests, cli := Generated.cliTable }
 
 /-- the tables with the variant `repaired` of the `extra_mods` merge -/
 def generatedTablesModsRepaired : Tables := { generatedTables with modsUserWins := true }
@@ -628,7 +660,7 @@ def parseArguments (T : Tables) (dir pkg : Str) (config : Option Settings) (cli 
   match applyCli T.schema T.seps (cliNamespace T.cli cli) s with
   | .error e => .error e
   | .ok s =>
-    match normalisePaths T.schema T.favicon dir pkg s with
+    match normalisePaths T.schema T.sentinels dir pkg s with
     | .error e => .error e
     | .ok s => finalize T.licenses s
 
